@@ -43,7 +43,7 @@ def main():
     # our checks
     props = [f"C{i:02d}" for i in range(1, 21)]
     caught = {}
-    rcw, outw = sh(f"/verif/bin/waspcheck -p {','.join(props)} -repo {W} -out /tmp/ev_seed", cwd="/verif")
+    rcw, outw = sh(f"{os.environ.get('WASPCHECK','/verif/bin/waspcheck')} -p {','.join(props)} -repo {W} -out /tmp/ev_seed", cwd="/verif")
     cur = None
     for l in outw.splitlines():
         m = re.match(r"VIOLATION property=(C\d+)", l)
